@@ -69,7 +69,7 @@ type scnOpts struct {
 
 func genCleanScn(t *rapid.T, col *collector, so scnOpts) cleanScn {
 	s := cleanScn{Count: rapid.SampledFrom([]int{1, 1, 2, 3}).Draw(t, "count"), Mode: genCleanMode(t), Sort: rapid.Bool().Draw(t, "sort")}
-	s.Cfgs = []CfgSpec{{Dir: "snaps", Filename: "f"}}
+	s.Cfgs = []CfgSpec{{Dir: "snaps", Filename: "f", DirStyle: rapid.SampledFrom([]string{"", "", "", "trailing", "dot", "dotdot", "double"}).Draw(t, "dirstyle")}}
 	if rapid.Bool().Draw(t, "cfg2") {
 		s.Cfgs = append(s.Cfgs, CfgSpec{Dir: "snaps", Filename: "g", Ext: rapid.SampledFrom([]string{".txt", ".json", ".snap", ""}).Draw(t, "ext2")})
 	}
@@ -149,6 +149,8 @@ func genCleanScn(t *rapid.T, col *collector, so scnOpts) cleanScn {
 		{Path: "snaps/TestOld_1.snap", Data: "old standalone"},
 		{Path: "snaps/" + strings.ReplaceAll(names[0], "/", "_") + "_77.snap", Data: "beyond"},
 		{Path: "snaps/" + strings.ReplaceAll(names[0], "/", "_") + "_78.snap.json", Data: "{\n \"a\": 1\n}"},
+		{Path: "x.go", Data: "package p\n\nvar OnlyVars = 1\n"},
+		{Path: "TestOld_1.go", Data: "package p\n\ntype T struct{}\n"},
 		{Path: "snaps/notes.txt", Data: "unrelated"},
 		{Path: "snaps/snapshot", Data: "no dot snap in the name"},
 		{Path: "snaps/README.md", Data: "readme"},
